@@ -106,6 +106,21 @@ def _opt_char_eq(m, args, raw):
     return (x == y) if (isinstance(x, int) and isinstance(y, int)) else (interp._z(x) == interp._z(y))
 
 
+@model("str::ends_with", "str::starts_with", "String::ends_with", "String::starts_with")
+def _ends_with(m, args, raw):
+    s_ = cs(args[0]).chars
+    pat = deref(args[1])
+    needle = cs(pat).chars if isinstance(pat, (CStr, RStr)) else [pat]
+    if len(needle) > len(s_):
+        return False
+    part = s_[len(s_) - len(needle):] if "ends_with" in raw else s_[:len(needle)]
+    for c, w in zip(part, needle):
+        e = (c == w) if (isinstance(c, int) and isinstance(w, int)) else m.decide(interp._z(c) == interp._z(w))
+        if not e:
+            return False
+    return True
+
+
 @model("str::find")
 def _find(m, args, raw):
     s = cs(args[0]).chars
